@@ -54,9 +54,11 @@ func finish(o *Outcome, w *World) *Outcome {
 	o.LogHash = w.Sim.Hash()
 	o.Steps = w.Sim.Steps
 	o.SimTimeS = time.Since(epoch).Seconds()
-	o.Stats = map[string]int{}
+	if o.Stats == nil {
+		o.Stats = map[string]int{}
+	}
 	for k, v := range w.Sim.Stats {
-		o.Stats[k] = v
+		o.Stats[k] += v
 	}
 	o.Log = w.Sim.Log
 	if w.Sim.BudgetExhausted {
